@@ -174,6 +174,12 @@ func runC07(c *Ctx) {
 	// E19 (= D8, N4): an input whose priority has no share is never read, so never observed closed:
 	// the v2 constructor refuses such configurations (otherwise Output()/Err() never close although
 	// every input is closed and empty and everything is released)
+	r.Doc("E20", "(= C17 R2) v1: a received AddInput command registers its channel inside its clause, unconditionally (an input the caller added is among those whose draining termination waits for)", 2)
+	if pr, err := resolvePrio(c.V1); err == nil {
+		checkCommandsApplied(c, pr, "E20")
+	} else {
+		r.Fail("E20", "v1:priority", "-", err.Error())
+	}
 	r.Doc("E19", "(= C15 D8) the v2 constructor rejects a zero share for any registered priority (every registered input is read, hence observed closed)", 1)
 	{
 		sub := &Ctx{V1: c.V1, V2: c.V2, Tier: c.Tier, R: NewReport("tmp", c.Tier)}
